@@ -100,7 +100,7 @@ theorem fastElem_of {ki : KindInfo} {es : Shape} {a : Arg} (hf : fastOK ki es = 
     obtain ⟨b, rfl, rfl⟩ := shapeOf_prim_inv hs
     exact .prim k b
   case pair s1 s2 =>
-    cases s1 <;> cases s2 <;> simp [fastOK] at hf
+    cases s1 <;> cases s2 <;> simp at hf
     case prim.prim k1 w1 k2 w2 =>
       obtain ⟨x, y, rfl, hx, hy⟩ := shapeOf_pair_inv hs
       obtain ⟨b1, rfl, rfl⟩ := shapeOf_prim_inv hx
@@ -175,7 +175,7 @@ theorem sizePass_spec (old : Mem) : ∀ (a : Arg) (c : Cache) (pos : Nat), wf a 
     simp only [sizePass, enc, lens, List.length_append]
     rw [hr _ (pos + (if ki.hasPrefix = true then 8 else 0))]
     cases hpc : ki.pushCount <;> cases hp : ki.hasPrefix <;>
-      simp [leBytes_length, pushAll_assign, pushAll_cons, pushAll_nil]
+      simp [leBytes_length, pushAll_assign, pushAll_cons]
   | .optNone _, c, pos, _ => by simp [sizePass, enc, lens, pushAll_nil]
   | .optSome a, c, pos, h => by
     simp only [wf] at h
@@ -255,7 +255,7 @@ theorem encode_spec (old : Mem) : ∀ (a : Arg) (c : Cache) (i pos : Nat), wf a 
     simp only [encode, hw.head, enc, lens, List.length_singleton]
     by_cases hlt : m.length < nulIdx m + 1
     · have he : nulIdx m = m.length := by omega
-      simp [hlt, he, takeWhile_eq_take_nulIdx]
+      simp [he, takeWhile_eq_take_nulIdx]
     · simp only [hlt, if_false]
       rw [take_nulIdx_succ m (by omega)]
   | .str s, c, i, pos, h, _ => by
@@ -382,7 +382,7 @@ theorem decode_spec (old : Mem) : ∀ (a : Arg) (pos : Nat) (rest : Bytes), wf a
     simp only [wf, Bool.and_eq_true] at h
     have h1 := decode_spec old a pos (enc old (pos + (enc old pos a).length) b ++ rest) h.1
     have h2 := decode_spec old b (pos + (enc old pos a).length) rest h.2
-    simp only [decode, shapeOf, enc, view, List.append_assoc, h1, len_sub, len_sub3, h2]
+    simp only [decode, shapeOf, enc, view, List.append_assoc, h1, len_sub, h2]
   | .tuple l, pos, rest, h => by
     simp only [wf] at h
     simp [decode, shapeOf, enc, view, decodeL_spec old l pos rest h]
@@ -432,7 +432,7 @@ theorem decodeL_spec (old : Mem) : ∀ (as : List Arg) (pos : Nat) (rest : Bytes
     simp only [wfL, Bool.and_eq_true] at h
     have h1 := decode_spec old a pos (encL old (pos + (enc old pos a).length) as ++ rest) h.1
     have h2 := decodeL_spec old as (pos + (enc old pos a).length) rest h.2
-    simp only [decodeL, shapesOf, encL, viewL, List.append_assoc, h1, len_sub, len_sub3, h2]
+    simp only [decodeL, shapesOf, encL, viewL, List.append_assoc, h1, len_sub, h2]
 theorem decodeN_spec (old : Mem) : ∀ (as : List Arg) (es : Shape) (pos : Nat) (rest : Bytes), homog es as = true →
     decodeN (decode es) as.length pos (encL old pos as ++ rest) = some (viewL as, rest)
   | [], es, pos, rest, _ => by simp [decodeN, encL, viewL]
@@ -441,7 +441,7 @@ theorem decodeN_spec (old : Mem) : ∀ (as : List Arg) (es : Shape) (pos : Nat) 
     have h1 := decode_spec old a pos (encL old (pos + (enc old pos a).length) as ++ rest) hw
     have h2 := decodeN_spec old as es (pos + (enc old pos a).length) rest hh
     rw [hs] at h1
-    simp only [decodeN, List.length_cons, encL, viewL, List.append_assoc, h1, len_sub, len_sub3, h2]
+    simp only [decodeN, List.length_cons, encL, viewL, List.append_assoc, h1, len_sub, h2]
 end
 
 end Codec
